@@ -8,7 +8,7 @@
    (through Flocq); nothing else. *)
 From Coq Require Import ZArith Reals Bool.
 From Flocq Require Import Core IEEE754.BinarySingleNaN.
-From Errdef Require Import Base.Str Base.Outcome Model.Convert Check.C11 Proofs.C11Proofs.
+From Errdef Require Import Base.Str Base.Outcome Model.Core Model.Convert Model.Unmarshal Check.C11 Proofs.C11Proofs Proofs.C11Binding.
 Local Open Scope Z_scope.
 
 (* ---- the model is regenerated from the source ------------------------------------------ *)
@@ -181,6 +181,49 @@ Theorem C11_distance_test_accepts_rounded : forall (g : b32) s m e,
   round_ok 23 8 s m e (bits_of_f32 g) = true.
 Proof. exact round_ok_sound32. Qed.
 Print Assumptions C11_distance_test_accepts_rounded.
+
+(* ---- which key a decoded field binds to (unmarshaler.go: definition keys of that name in All() order, then
+   the custom keys of that name in registration order; Model/Unmarshal.bind_field) ----------------------- *)
+
+(* EVERY value the rules accept is bound: if some key of the field's name accepts the value and every key tried
+   before it declines, the field is bound to that key with exactly the value try_convert gives - for any number
+   of same-named keys, on the definition or among the custom keys *)
+Theorem C11_accepted_is_bound : forall c d k n v l1 key l2 b,
+  is_placeholder v = false ->
+  cands c d n = (l1 ++ key :: l2)%list -> List.Forall (declines v) l1 -> accepts v key b ->
+  bind_field c d k n v = FTyped key b.
+Proof. exact accepted_is_bound. Qed.
+Print Assumptions C11_accepted_is_bound.
+
+(* a bound value is the first accepting key's conversion of the decoded value, nothing else *)
+Theorem C11_bound_is_first_accepting : forall c d k n v key b,
+  bind_field c d k n v = FTyped key b ->
+  exists l1 l2, cands c d n = (l1 ++ key :: l2)%list /\ List.Forall (declines v) l1 /\ accepts v key b.
+Proof. exact bound_is_first_accepting. Qed.
+Print Assumptions C11_bound_is_first_accepting.
+
+(* a field left unknown (lenient) or rejected with ErrUnknownField (strict) was declined by EVERY key of its name *)
+Theorem C11_unbound_was_declined_by_all : forall c d k n v,
+  is_placeholder v = false ->
+  (bind_field c d k n v = FUnknown v \/
+   bind_field c d k n v = FFail {| fl_class := cls_field; fl_kind := k; fl_field := n |}) ->
+  List.Forall (declines v) (cands c d n).
+Proof. exact unbound_was_declined_by_all. Qed.
+Print Assumptions C11_unbound_was_declined_by_all.
+
+(* non-vacuity: 300 for the name "n" with an int8 key on the definition and int8, int64 keys among the custom
+   keys - declined twice, bound by the third *)
+Example C11_binding_example :
+  let k8 := {| uk_key := {| k_id := 1; k_name := "n"; k_ty := 3 |}; uk_ty := FScalar (st 3%N KInt8) |} in
+  let k8' := {| uk_key := {| k_id := 2; k_name := "n"; k_ty := 3 |}; uk_ty := FScalar (st 3%N KInt8) |} in
+  let k64 := {| uk_key := {| k_id := 3; k_name := "n"; k_ty := 6 |}; uk_ty := FScalar (st 6%N KInt64) |} in
+  let ko := {| uk_key := {| k_id := 4; k_name := "m"; k_ty := 6 |}; uk_ty := FScalar (st 6%N KInt64) |} in
+  let d := {| ud_def := define 1000 0 "k" []; ud_keys := [ko; k8] |} in
+  let c := {| u_defs := [d]; u_default := None; u_strict := true; u_custom := [k8'; ko; k64]; u_sentinels := [] |} in
+  let v := DS ty_float64 (SF64 4643985272004935680) in
+  cands c d "n" = [k8; k8'; k64] /\ is_placeholder v = false /\
+  bind_field c d "k" "n" v = FTyped k64 (BScalar (st 6%N KInt64) (SInt 300)).
+Proof. vm_compute. repeat split; reflexivity. Qed.
 
 (* On every well-formed case outside the K6 boundary inputs, an observation that agrees with
    the model satisfies the specification [ok]. *)
